@@ -86,9 +86,13 @@ def known_findings(prop, res, replay_props):
             continue
         p = subprocess.run(["python3-vt", WORKER, "--props", ",".join(replay_props), "--replay", os.path.join(core.VERIF, rp)],
                            stdout=subprocess.PIPE, stderr=subprocess.STDOUT, text=True,
-                           env=dict(os.environ, PTG_INCLUDE_KNOWN="1"))     # the replay of a known finding must not be excluded itself
+                           env=dict(os.environ, PTG_INCLUDE_KNOWN="1", PTG_REPLAY_RUNS=str(f.get("tries", 3))))     # the replay of a known finding must not be excluded itself
         if "REPLAY-FAIL" in p.stdout:
             res.known.append("%s: %s" % (f["id"], f["what"]))
+        elif f.get("timing_dependent"):
+            # a listed finding that needs a particular timing is still announced; whether this run reproduced it is recorded
+            res.known.append("%s: %s (timing dependent: not reproduced in %d runs of its replay this time)" % (f["id"], f["what"], f.get("tries", 3)))
+            res.coverage.setdefault("known_findings_not_reproduced", []).append(f["id"])
         else:
             res.coverage.setdefault("known_findings_not_reproduced", []).append(f["id"])
 
